@@ -68,6 +68,10 @@ def gen_kind(rng, lookups=False):
             x = rng.choice(INTS + ["z", "<cond>c"])
             sub = None
         rhs = g.bool_expr(2) if x.startswith("<cond>") else g.int_expr(3)
+        if loops and not x.startswith("<cond>"):
+            # a loop body that feeds on its own result squares it every trip: keep values small (NumPy's
+            # 64-bit integers wrap silently, Python's grow past what can be printed; the model has unbounded Z)
+            rhs = ["bin", "rem", rhs, ["int", 97]]
         if lookups and sub is None and not x.startswith("<cond>") and rng.random() < 0.25:
             rhs = g.objarr()
         if sub is None and not loops and rng.random() < 0.1:
